@@ -50,3 +50,74 @@ Example C08_spacing_example :
   render (join_spacing l) = ("a" ++ nl ++ nl ++ nl ++ "b" ++ nl ++ "c")%string /\
   relayout 1 l = [([Code "a"], 1, 1); ([Code "b"], 4, 4); ([Code "c"], 5, 5)].
 Proof. vm_compute. split; reflexivity. Qed.
+
+(* ---- reparse normal form for comment placement (pair-level model of the parser's
+   pending-comment bookkeeping; the grammar step text -> pairs is validated by the ATTACH
+   correspondence stream, not proved) *)
+Open Scope list_scope.
+
+(* lists and records: on the formatter's own layout every comment is re-attached to the same
+   item in the same role, for items shaped as the parser shapes them (only the last item has
+   a trailing comment) ... *)
+Theorem C08_list_reattach_fixed_point :
+  forall (A : Type) (items : list (commented A)),
+  only_last_trailing items = true -> attach (layout_pairs items) = items.
+Proof. intros A. exact list_reattach_fixed_point. Qed.
+Check C08_list_reattach_fixed_point :
+  forall (A : Type) (items : list (commented A)),
+  only_last_trailing items = true -> attach (layout_pairs items) = items.
+Print Assumptions C08_list_reattach_fixed_point.
+
+(* ... which is the shape of everything the parser attaches (an eol_comment can only follow
+   the last item, by the grammar) ... *)
+Theorem C08_attach_shape :
+  forall (A : Type) (pairs : list (lpair A)),
+  eol_only_last pairs = true -> only_last_trailing (attach pairs) = true.
+Proof. intros A. exact attach_shape. Qed.
+Check C08_attach_shape :
+  forall (A : Type) (pairs : list (lpair A)),
+  eol_only_last pairs = true -> only_last_trailing (attach pairs) = true.
+Print Assumptions C08_attach_shape.
+
+(* ... so comment placement is stable from the first formatting pass on: an after-comma comment
+   has become a leading comment of the next item, after-last comments have joined the last
+   item's trailing text, and parsing the formatted layout changes nothing any more *)
+Theorem C08_reattach_after_one_pass :
+  forall (A : Type) (pairs : list (lpair A)),
+  eol_only_last pairs = true -> attach (layout_pairs (attach pairs)) = attach pairs.
+Proof. intros A. exact reattach_after_one_pass. Qed.
+Check C08_reattach_after_one_pass :
+  forall (A : Type) (pairs : list (lpair A)),
+  eol_only_last pairs = true -> attach (layout_pairs (attach pairs)) = attach pairs.
+Print Assumptions C08_reattach_after_one_pass.
+
+(* do-blocks (with the pairs the do_block rule yields when it accepts the layout; with the
+   current grammar that excludes statements with a same-line comment: known finding F29) *)
+Theorem C08_do_reattach_fixed_point :
+  forall (A : Type) (stmts : list (commented A)) ret, ctrailing ret = None ->
+  attach_do (do_layout_pairs stmts ret) (cnode ret) = (stmts, ret).
+Proof. intros A. exact do_reattach_fixed_point. Qed.
+Check C08_do_reattach_fixed_point :
+  forall (A : Type) (stmts : list (commented A)) ret, ctrailing ret = None ->
+  attach_do (do_layout_pairs stmts ret) (cnode ret) = (stmts, ret).
+Print Assumptions C08_do_reattach_fixed_point.
+
+(* `[1, // a` newline `2 // b` newline `// c` newline `]`: "// a" leads 2, "// b" and "// c" trail it *)
+Example C08_attach_example :
+  attach [PItem 1 None; PComment "// a"; PItem 2 (Some "// b"); PComment "// c"]
+  = [Cm [] 1 None; Cm ["// a"] 2 (Some ("// b" ++ nl ++ "// c"))%string] /\
+  layout_pairs [Cm [] 1 None; Cm ["// a"] 2 (Some ("// b" ++ nl ++ "// c"))%string]
+  = [PItem 1 None; PComment "// a"; PItem 2 None; PComment "// b"; PComment "// c"].
+Proof. split; reflexivity. Qed.
+
+(* format_depends_on_ast_only: the layout is a function of the comment-carrying AST, the width
+   and the indentation only — the model has no other input (no spans, no source text), and the
+   FORMAT correspondence shows the implementation's text is reproduced from exactly these. *)
+Theorem C08_format_depends_on_ast_only :
+  forall e2s np rk w e1 e2 i1 i2, e1 = e2 -> i1 = i2 ->
+  render (fmtd e2s np rk w e1 i1) = render (fmtd e2s np rk w e2 i2).
+Proof. intros; subst; reflexivity. Qed.
+Check C08_format_depends_on_ast_only :
+  forall e2s np rk w e1 e2 i1 i2, e1 = e2 -> i1 = i2 ->
+  render (fmtd e2s np rk w e1 i1) = render (fmtd e2s np rk w e2 i2).
+Print Assumptions C08_format_depends_on_ast_only.
